@@ -197,7 +197,9 @@ PROPS = {
         "subs": [sub("C08", "run_C08", "spec_C08", ["Run.World", "Run.C08"], 60, 400)],
         "run_modules": ["C08"],
         "rule": "files laid out by the harness's own v1/v2/v3 encoder (random record order, shuffled id lists) from 2-6-term fact sets (thorough 2-9); "
-                "for each file: the file itself, EVERY proper prefix, 4 suffixes, 6-12 version bytes; non-trivial = file with both roots",
+                "for each file: the file itself, EVERY proper prefix, 4 suffixes, 6-12 version bytes, 12 (thorough 24) single-byte mutants "
+                "(random value / neighbour value / 0 / copy of another byte; each loaded in a child process: dump, error, panic, or "
+                "Fuel = killed after 4 s or died from a signal); non-trivial = file with both roots",
         "trust": ["harness/src/bin.rs encoder as the definition of 'laid out according to the documented format'"],
         "assumptions": ["v1 terms section shorter than 0x48504F00 bytes (else it is indistinguishable from the magic)"],
     },
